@@ -131,6 +131,54 @@ for i in range(n):
 for d in DEEP:
     for j in range(min(n, 8)):
         history([d, j], ["parse", "both"])
+# several calls on ONE started page, with different option sets: the expansion and the tree of a later call equal those
+# of a fresh context that starts the same page and makes only that call, and so do the messages that call adds
+OPTSETS = [{}, {"expand_invoke": False}, {"expand_parserfns": False}, {"pre_expand": True}]
+SP_PAGES = ["{{a|x}} {{#invoke:m|f}}", "{{#invoke:m|f}} {{#invoke:m|g}}", "{{a}} [[L|{{a}}]]", "{{loop}} {{a}}", "<nowiki>{{a}}</nowiki> {{nw}}",
+            "{{#if:x|{{a}}|n}}", "text {{h|z}}"]
+
+
+def one_call(c, page, opts):
+    out = {}
+    before = {k: len(v) for k, v in c.to_return().items()}
+    try:
+        with quiet_stdout():
+            out["expand"] = c.expand(page, **opts)
+            if "expand_invoke" not in opts and "expand_parserfns" not in opts and "#invoke" not in page:
+                out["tree"] = tree(c.parse(page))
+    except Exception as ex:
+        out["exception"] = f"{type(ex).__name__}: {str(ex)[:80]}"
+    # the messages this call added (with the expansion path they were recorded under)
+    out["new_messages"] = {k: [(m["msg"], m["path"]) for m in v[before[k]:]] for k, v in c.to_return().items()}
+    return out
+
+
+for first, second in itertools.product(range(len(SP_PAGES)), repeat=2):
+    for o1, o2 in itertools.product(OPTSETS[:2] if tier == "quick" else OPTSETS, repeat=2):
+        if "#invoke" in SP_PAGES[first] and "expand_invoke" not in o1:
+            continue         # would start the Lua sandbox (absent offline)
+        if "#invoke" in SP_PAGES[second] and "expand_invoke" not in o2:
+            continue
+        evaluations += 1
+        with quiet_stdout():
+            c1 = Wtp(db_path=DB, quiet=True)
+            c2 = Wtp(db_path=DB, quiet=True)
+        try:
+            c1.start_page("Same")
+            for _ in range(3):
+                one_call(c1, SP_PAGES[first], o1)
+            got = one_call(c1, SP_PAGES[second], o2)
+            c2.start_page("Same")
+            want = one_call(c2, SP_PAGES[second], o2)
+            if got != want:
+                fail("c09:later-call-on-the-same-page-equals-fresh-context",
+                     f"{SP_PAGES[second]!r} {o2} after 3x {SP_PAGES[first]!r} {o1}: {str(got)[:120]} vs {str(want)[:120]}",
+                     {"first": SP_PAGES[first], "first_options": o1, "second": SP_PAGES[second], "second_options": o2},
+                     "call-history-dependent")
+        finally:
+            c1.db_conn.close()
+            c2.db_conn.close()
+        distinct.add(("same-page", first, second, str(o1), str(o2)))
 # contexts of other languages, after the English contexts above were used in this process: same results as in a
 # fresh interpreter (state kept on the class or the module would show here)
 import json
